@@ -302,6 +302,46 @@ def known_finding_stream(ck):
             ck.count("known_F-C04-d_generic_" + ("err" if rb[0] == "err" else "ok"))
 
 
+def witness_stream(ck):
+    """the kernel-checked negative witnesses of Props/C07.lean (`needs_…`), replayed on the real code:
+    each must fail there too — otherwise the model, not the code, is wrong"""
+    M, REQ = G.model, R.REQ
+    sub = M("Sub", [("p", "str", ""), ("q", "int", 0), ("w", "bool", False), ("z", "str", "zz")])
+    subd = {"p": "", "q": 0, "w": False, "z": "zz"}
+    flat = M("ExFlat", [("a", "str", ""), ("b", "int", 0), ("c", "bool", True), ("e", "str", "dflt"), ("r", "str", REQ)])
+    fam = M("ExFam", [("a", "str", ""), ("xs", ("list", "str"), []), ("s", sub, subd), ("c", "bool", True), ("ys", ("list", "str"), REQ)])
+    items = M("ExItems", [("items", ("list", sub), [])])
+    deep = M("ExDeep", [("s", M("SubL", [("xs", ("list", "str"), [])]), {"xs": []})])
+    anyl = M("ExAny", [("u", "any", [])])
+    fv = lambda xs, z: {"a": "", "xs": xs, "s": {"p": "", "q": 0, "w": False, "z": z}, "c": True, "ys": ["y"]}  # noqa: E731
+    W = [
+        ("needs_trimmed", flat, [], {"a": " x", "b": 0, "c": True, "e": "dflt", "r": "r"}, False),
+        ("needs_no_blank_in_list", fam, ["xs"], fv(["a", ""], "zz"), False),
+        ("needs_no_blank_in_subrecord", fam, ["s"], fv([], ""), False),
+        ("needs_nonempty_or_default", fam, [], {"a": "", "xs": [], "s": subd, "c": True, "ys": []}, False),
+        ("needs_no_all_default_record_in_list", items, [], {"items": [subd, {"p": "x", "q": 0, "w": False, "z": "zz"}]}, False),
+        ("needs_admissible_depth (packed)", deep, ["s"], {"s": {"xs": ["a"]}}, False),
+        ("needs_admissible_depth (spread)", deep, [], {"s": {"xs": ["a"]}}, True),
+        ("spread_untyped_list_of_lists_fails (spread)", anyl, [], {"u": [["k", "v"]]}, False),
+        ("spread_untyped_list_of_lists_fails (packed)", anyl, ["u"], {"u": [["k", "v"]]}, True),
+        ("example exFam all packed", fam, ["xs", "s", "ys"], {"a": "x;y", "xs": ["a|b", "\\;", "q"], "s": {"p": "p;|q", "q": -7, "w": False, "z": "z"}, "c": True, "ys": ["one"]}, True),
+    ]
+    drv = core.Driver()
+    for name, t, targets, v, expect in W:
+        cls = R.mk_class(t)
+        cells, raw = R.real_unparse(cls, R.instance(t, v), targets)
+        back = R.real_parse(cls, t, raw) if raw is not None else ("err", "unparse")
+        real_ok = back == ("ok", R.canon_plain(t, v))
+        a = drv.results([{"op": "row.roundtrip", "sch": R.schema_json(t), "targets": targets, "v": R.val_json(t, v)}])[0]
+        mb = R.model_result(a.get("back")) if isinstance(a, dict) and a.get("back") else ("err", "unparse")
+        model_ok = mb == ("ok", R.canon_plain(t, v))
+        ck.evaluations += 1
+        ck.count("witness." + ("confirmed" if real_ok == expect and model_ok == expect else "MISMATCH"))
+        if real_ok != expect or model_ok != expect:
+            ck.tie_break(f"Lean witness {name}: expected round trip {'to hold' if expect else 'to fail'}; real={real_ok} model={model_ok}",
+                         {"witness": name, "real": back, "model": mb})
+
+
 def fold(ck, results):
     for r in results:
         ck.evaluations += r["n"]
@@ -382,6 +422,7 @@ def run(ck: core.Check):
     fold(ck, par.pmap(file_worker, core.shard(fc, par.NPROC)))
 
     known_finding_stream(ck)
+    witness_stream(ck)
 
     for need in ("fixed.in-domain", "random.in-domain", "flow.in-domain", "layout.packed-some", "layout.all-spread", "file.csv", "file.xlsx"):
         if not ck.strata.get(need):
@@ -395,7 +436,9 @@ def run(ck: core.Check):
 
 
 PARTIAL_GAP = [
-    "parse_unparse is proved for the schema family stated in Props/C07.lean (see theorem names ending in _partial); the general statement C07_full (all schemas of the Ty grammar) is stated, not proved — it is exercised by the tie and the oracle",
+    "parse_unparse_partial is proved for rows without header remaps whose fields are basic (str/int/float/bool), List[str], or one level of sub-records of basic fields — each list / sub-record spread or packed under ANY target-header set, unbounded strings / integers / list lengths / number of fields",
+    "not proved (stated as C07_full, exercised by tie + oracle only): lists of non-string elements, lists of lists, lists of sub-records (so not FlowRowModel.edges), sub-records containing lists or sub-records, untyped lists, header remaps (field_name_to_header_name / context remap)",
+    "floats are an abstract codec: the value domain carries repr(x); float(repr(x)) == x is CPython's, checked by the tie",
 ]
 
 
